@@ -32,12 +32,14 @@ var addrU = []felt.Felt{
 	*lib.F(1), *lib.F(2),
 	*lib.FHex("0x7ffffffffffffffffffffffffffffffffffffffffffffffffffffffffff0001"),
 	*lib.FHex("0x7ffffffffffffffffffffffffffffffffffffffffffffffffffffffffff0002"),
-	*lib.F(0x104), *lib.F(0x105), *lib.F(0),
+	*lib.F(0x104), *lib.F(0),
+	*lib.FHex("0x800000000000011000000000000000000000000000000000000000000000000"), // P-1, the largest felt
 	*lib.F(0xdead), // never emits
 }
 
 // key universe; the last one is never used by an event. Key 3 is the felt 0 (edge value).
-var keyU = []felt.Felt{*lib.F(0x50), *lib.F(0x51), *lib.F(0x52), *lib.F(0), *lib.F(0xbeef)}
+var keyU = []felt.Felt{*lib.F(0x50), *lib.F(0x51),
+	*lib.FHex("0x800000000000011000000000000000000000000000000000000000000000000"), *lib.F(0), *lib.F(0xbeef)}
 
 const (
 	nEmitAddr = 7 // addrU[0..6] emit
@@ -282,5 +284,9 @@ func (n *Node) persistedState() string {
 		fr, _ := rf.FromBlock()
 		snap = fmt.Sprintf("%d/%d", fr, nx)
 	}
-	return "P=[" + strings.Join(wins, ",") + "] S=" + snap
+	floor := uint64(0)
+	if f, err := pruner.OldestRetainedBlock(n.DB); err == nil {
+		floor = f
+	}
+	return "P=[" + strings.Join(wins, ",") + "] S=" + snap + fmt.Sprintf(" F=%d", floor)
 }
